@@ -46,7 +46,7 @@ RULE = ('Inputs: random bytes (with and without a valid e_ident prefix); EVERY t
         'input passes _identify_file (magic, EI_CLASS, EI_DATA valid) and differs from its seed inside a region the '
         'battery reads (Ehdr, section/program header tables, dynamic/note/hash payloads), or, for seedless inputs, '
         'passes _identify_file and is long enough for the Ehdr to parse. Distinct by SHA-1 of the input bytes.')
-N = {'quick': 4800, 'thorough': 240000}
+N = {'quick': 4800, 'thorough': 160000}
 
 # Work bounds, per battery step:  lines <= LINE_B[step] * max(len, 64 KiB),  bytes <= BYTE_B * max(len, 64 KiB).
 # Calibration (`python -m vf.checks.c19 measure`, unchanged tree, CPython 3.12): 20 generated seeds + the 110
@@ -153,15 +153,18 @@ def _ltrace(frame, event, arg):
 
 class CountingBytesIO(io.BytesIO):
     """BytesIO that counts what is asked of it through read():
-    req = sum of requested sizes, got = sum of delivered sizes, peak = largest single request."""
+    req = sum of requested sizes, got = sum of delivered sizes, peak = largest single request,
+    over = {innermost elftools frame issuing a request larger than `watch`: largest such request}."""
 
     def __init__(self, data):
         io.BytesIO.__init__(self, data)
         self.nbytes = len(data)
+        self.watch = byte_budget(len(data))
         self.reset()
 
     def reset(self):
         self.req = self.got = self.peak = 0
+        self.over = {}
 
     def read(self, n=-1):
         r = io.BytesIO.read(self, n)
@@ -171,7 +174,22 @@ class CountingBytesIO(io.BytesIO):
         self.got += len(r)
         if n > self.peak:
             self.peak = n
+        if n > self.watch:
+            site = _caller_site()
+            if n > self.over.get(site, 0):
+                self.over[site] = n
         return r
+
+
+def _caller_site():
+    """innermost frame inside the elftools package on the current stack, as 'elf/notes.py:iter_notes'"""
+    f = sys._getframe(2)
+    while f is not None:
+        fn = f.f_code.co_filename.replace('\\', '/')
+        if '/elftools/' in fn:
+            return '%s:%s' % (fn.split('/elftools/')[-1], f.f_code.co_name)
+        f = f.f_back
+    return '?'
 
 
 def line_budget(n, step):
@@ -201,8 +219,9 @@ class Battery:
 
     def _run(self, step, fn):
         """Run fn() under the meter; the step's counters accumulate over calls.
-        work[step] = [line events, bytes delivered, largest single request, bytes requested, outcome]"""
-        w = self.work.setdefault(step, [0, 0, 0, 0, 'ok'])
+        work[step] = [line events, bytes delivered, largest single request, bytes requested, outcome,
+                      {site: size} of the single requests that exceed the bound]"""
+        w = self.work.setdefault(step, [0, 0, 0, 0, 'ok', {}])
         if w[4] == 'budget':
             return None
         _m.n = w[0]
@@ -229,6 +248,8 @@ class Battery:
         w[1] += st.got
         w[2] = max(w[2], st.peak)
         w[3] += st.req
+        for site, n in st.over.items():
+            w[5][site] = max(w[5].get(site, 0), n)
         return res
 
     @staticmethod
@@ -428,7 +449,16 @@ class Scan:
                 for f, o, s in NHDR_LAYOUT:
                     self._add('note.%s[%d].%s' % (tag, k, f), pos + o, s, 'rec', 12)
                 namesz, descsz = _u(data, pos, 4, le), _u(data, pos + 4, 4, le)
-                pos += 12 + (namesz + 3) // 4 * 4 + (descsz + 3) // 4 * 4
+                dpos = pos + 12 + (namesz + 3) // 4 * 4
+                if _u(data, pos + 8, 4, le) == 5 and data[pos + 12:pos + 16] == b'GNU\0':
+                    # NT_GNU_PROPERTY_TYPE_0: array of {pr_type, pr_datasz, data, padding to 4/8}
+                    q, j, al = dpos, 0, cls // 8
+                    while q + 8 <= min(dpos + descsz, end) and j < 8:
+                        self._add('prop.%s[%d][%d].pr_type' % (tag, k, j), q, 4, 'rec', 8)
+                        self._add('prop.%s[%d][%d].pr_datasz' % (tag, k, j), q + 4, 4, 'rec', 8)
+                        q += (8 + _u(data, q + 4, 4, le) + al - 1) // al * al
+                        j += 1
+                pos = dpos + (descsz + 3) // 4 * 4
                 k += 1
             self.regions.append((off, end))
         elif typ == SHT_HASH:
@@ -569,7 +599,9 @@ def _model(kind, cls, le):
               W.enc_sym(cls, le, 1, 0x1000, 8, 0x12, 0, 1))
     notes = (W.enc_note(le, b'GNU\0', bytes(range(20)), 3) +
              W.enc_note(le, b'GNU\0', struct.pack(W.E(le) + 'IIII', 0, 3, 2, 0), 1) +
-             W.enc_note(le, b'XY\0', b'abcde', 0x42))
+             W.enc_note(le, b'XY\0', b'abcde', 0x42) +
+             # NT_GNU_PROPERTY_TYPE_0 with one GNU_PROPERTY_X86_FEATURE_1_AND property (padded to the class word)
+             W.enc_note(le, b'GNU\0', struct.pack(W.E(le) + 'III', 0xc0000002, 4, 3) + b'\0' * (4 if cls == 64 else 0), 5))
     secs = [
         {'name': '', 'sh_type': 0},
         text,
@@ -790,7 +822,7 @@ def run_case(ctx, case):
         for step in Battery.STEPS:
             if step not in b.work:
                 continue
-            lines, got, peak, req, outcome = b.work[step]
+            lines, got, peak, req, outcome, over = b.work[step]
             ctx.count('battery.step.%s.%s' % (step, outcome))
             if outcome == 'budget':
                 ctx.fail('battery.line-budget|step=%s' % step,
@@ -801,15 +833,15 @@ def run_case(ctx, case):
             elif outcome == 'memory':
                 ctx.fail('battery.MemoryError|step=%s' % step, 'battery step %s raised MemoryError on a %d-byte input'
                          % (step, len(data)), case)
-            if peak > bb:
-                ctx.fail('battery.read-size|step=%s' % step,
-                         'battery step %s asked the stream of a %d-byte input for %d bytes in a single read() (bound '
-                         '%d + %d*max(len,%d) = %d); a file object allocates the requested size'
-                         % (step, len(data), peak, BYTE_A, BYTE_B, SIZE_FLOOR, bb), case)
+            for site in sorted(over):
+                ctx.fail('battery.read-size|step=%s|site=%s' % (step, site),
+                         'battery step %s (%s) asked the stream of a %d-byte input for %d bytes in a single read() '
+                         '(bound %d*max(len,%d) = %d); a file object allocates the requested size up front'
+                         % (step, site, len(data), over[site], BYTE_B, SIZE_FLOOR, bb), case)
             if got > bb:
                 ctx.fail('battery.bytes-read|step=%s' % step,
-                         'battery step %s read %d bytes in total from a %d-byte input (bound %d + %d*max(len,%d) = %d)'
-                         % (step, got, len(data), BYTE_A, BYTE_B, SIZE_FLOOR, bb), case)
+                         'battery step %s read %d bytes in total from a %d-byte input (bound %d*max(len,%d) = %d)'
+                         % (step, got, len(data), BYTE_B, SIZE_FLOOR, bb), case)
         for step in Battery.EXTRA_STEPS:
             if step in b.work:
                 ctx.count('%s.%s' % (step, b.work[step][4]))
@@ -893,7 +925,7 @@ def enum_byte_subst(tier):
 def enum_single_fields(tier):
     """every field x every boundary value (quick: reduced value set for fields that steer nothing and for
     shipped files; shipped files <= 1 KiB only)"""
-    for src in small_seeds(1024 if tier == 'quick' else STORE_MAX):
+    for src in small_seeds(1024 if tier == 'quick' else SMALL):
         sc = seed_scan(src)
         if not sc.ok:
             continue
@@ -917,8 +949,7 @@ def enum_single_fields(tier):
 
 def pair_seeds(tier):
     if tier == 'thorough':
-        return (gen_seed_names() +
-                ['file:' + p for p, sz in shipped_elfs() if sz <= 2048])
+        return gen_seed_names() + ['file:' + p for p, sz in shipped_elfs() if sz <= 1024]
     return [s for s in gen_seed_names() if s[4:-4] in ('min', 'sec', 'xnum', 'seg')] + ['gen:full64le', 'gen:full32be']
 
 
@@ -942,7 +973,7 @@ def enum_field_pairs(tier):
 def enum_record_pairs(tier):
     """every pair of fields of one typed record (dynamic entry, note header, hash / gnu-hash header) x boundary values"""
     if tier == 'thorough':
-        srcs = small_seeds(STORE_MAX)
+        srcs = small_seeds(SMALL)
     else:
         srcs = ['gen:full32le', 'gen:full64be']
     for src in srcs:
@@ -1047,7 +1078,7 @@ def strategy(tier):
 # ---------------------------------------------------------------------------
 # optional atheris campaign on the constructor
 
-ATHERIS_RUNS = {'quick': 20000, 'thorough': 1600000}    # total over all shards
+ATHERIS_RUNS = {'quick': 20000, 'thorough': 800000}    # total over all shards
 
 _ATHERIS_TARGET = r'''
 import sys, os, io, hashlib, traceback
